@@ -33,6 +33,9 @@ pub struct Disk {
     pub next_inode: u64,
     /// Counter for temp-file names; survives process runs so names never collide.
     pub temp_counter: u64,
+    /// Advisory locks (flock): inode -> holders (open file description, exclusive?).
+    pub flocks: BTreeMap<u64, Vec<(u64, bool)>>,
+    pub next_desc: u64,
 }
 
 impl Disk {
@@ -148,6 +151,7 @@ pub enum OpKind {
     Copy,
     HttpChunk,
     HttpConnect,
+    Flock,
 }
 
 #[derive(Clone, Copy, Debug, PartialEq, Eq, Serialize, Deserialize)]
@@ -266,6 +270,102 @@ pub struct Machine {
     pub trace: Vec<(u32, OpKind, u32)>,
     /// Short I/O probability (percent) for file reads and HTTP chunk sizes.
     pub short_read_pct: u64,
+    /// Two processes on the same disk (see `Conc`); None: one process at a time.
+    pub conc: Option<Conc>,
+    /// A path whose contents are recorded every time they change (the cache
+    /// file): what a reader, or a kill, at that instant would find there.
+    pub watch_path: Option<PathBuf>,
+    pub watch_log: Vec<Option<Vec<u8>>>,
+}
+
+/// Everything that belongs to one process rather than to the machine.
+#[derive(Default)]
+pub struct ProcState {
+    pub crashed: bool,
+    pub hung: bool,
+    pub step: u32,
+    pub op_counts: BTreeMap<OpKind, u32>,
+    pub faults: Vec<FsFault>,
+    pub crash: Option<CrashPoint>,
+    pub server: Vec<Server>,
+    pub http: HttpStats,
+    pub trace: Vec<(u32, OpKind, u32)>,
+}
+
+/// Two processes (0 and 1) run the real code on two OS threads, one at a time:
+/// the machine itself is the baton. Its flat per-process fields always belong
+/// to `current`; the other process's are parked here. Before every step of the
+/// running process the chooser decides whether the other one runs first, so
+/// the interleaving of file-system and transfer steps is a function of the
+/// choice record like everything else.
+pub struct Conc {
+    pub parked: ProcState,
+    pub current: u8,
+    pub finished: [bool; 2],
+    pub switch_pct: u64,
+    pub switches: u64,
+}
+
+struct Mail {
+    machine: Option<Machine>,
+    turn: u8,
+}
+
+static MAIL: std::sync::Mutex<Mail> = std::sync::Mutex::new(Mail {
+    machine: None,
+    turn: 0,
+});
+static MAIL_CV: std::sync::Condvar = std::sync::Condvar::new();
+
+fn post(m: Machine, turn: u8) {
+    let mut g = MAIL.lock().unwrap_or_else(|e| e.into_inner());
+    g.machine = Some(m);
+    g.turn = turn;
+    MAIL_CV.notify_all();
+}
+
+/// Block until the machine is handed to process `me`; install it on this thread.
+pub fn conc_wait_turn(me: u8) {
+    let mut g = MAIL.lock().unwrap_or_else(|e| e.into_inner());
+    loop {
+        if g.turn == me && g.machine.is_some() {
+            let m = g.machine.take().unwrap();
+            drop(g);
+            install(m);
+            return;
+        }
+        g = MAIL_CV.wait(g).unwrap_or_else(|e| e.into_inner());
+    }
+}
+
+/// Hand the machine to the other process and wait for it to come back.
+fn conc_yield(me: u8) {
+    let mut m = uninstall().expect("simkit: conc_yield without a machine");
+    m.swap_proc();
+    post(m, me ^ 1);
+    conc_wait_turn(me);
+}
+
+/// Process `me` has ended (returned, was killed, hung or panicked). Process 1
+/// always hands the machine back; process 0 lets process 1 run to its end
+/// first. Afterwards the machine is on process 0's thread, its flat fields
+/// are process 0's and `conc.parked` holds process 1's.
+pub fn conc_finish(me: u8) {
+    let other_done = with(|m| {
+        let c = m.conc.as_mut().expect("conc");
+        c.finished[me as usize] = true;
+        c.finished[(me ^ 1) as usize]
+    });
+    if me == 1 {
+        let mut m = uninstall().expect("machine");
+        m.swap_proc();
+        post(m, 0);
+    } else if !other_done {
+        let mut m = uninstall().expect("machine");
+        m.swap_proc();
+        post(m, 1);
+        conc_wait_turn(0);
+    }
 }
 
 thread_local! {
@@ -318,7 +418,48 @@ impl Machine {
             stats: BTreeMap::new(),
             trace: Vec::new(),
             short_read_pct: 0,
+            conc: None,
+            watch_path: None,
+            watch_log: Vec::new(),
         }
+    }
+
+    /// Exchange the flat per-process fields with the parked process.
+    pub fn swap_proc(&mut self) {
+        use std::mem::swap;
+        if let Some(c) = self.conc.as_mut() {
+            let p = &mut c.parked;
+            swap(&mut self.crashed, &mut p.crashed);
+            swap(&mut self.hung, &mut p.hung);
+            swap(&mut self.step, &mut p.step);
+            swap(&mut self.op_counts, &mut p.op_counts);
+            swap(&mut self.faults, &mut p.faults);
+            swap(&mut self.crash, &mut p.crash);
+            swap(&mut self.server, &mut p.server);
+            swap(&mut self.http, &mut p.http);
+            swap(&mut self.trace, &mut p.trace);
+            c.current ^= 1;
+        }
+    }
+
+    /// Record the watched path's contents if they differ from the last record.
+    pub fn watch_check(&mut self) {
+        if let Some(p) = &self.watch_path {
+            let cur = self.disk.read(p);
+            let same = match (self.watch_log.last(), cur) {
+                (Some(None), None) => true,
+                (Some(Some(a)), Some(b)) => a.as_slice() == b,
+                _ => false,
+            };
+            if !same && self.watch_log.len() < 256 {
+                let v = cur.map(|b| b.to_vec());
+                self.watch_log.push(v);
+            }
+        }
+    }
+
+    fn watched_ino(&self) -> Option<u64> {
+        self.watch_path.as_ref().and_then(|p| self.disk.names.get(p).copied())
     }
 
     /// Begin a new process run on the same disk.
@@ -332,6 +473,10 @@ impl Machine {
         self.server.clear();
         self.http = HttpStats::default();
         self.trace.clear();
+        self.conc = None;
+        self.disk.flocks.clear();
+        self.watch_log.clear();
+        self.watch_check();
     }
 
     pub fn event(&mut self, name: &'static str, a: u64, b: u64) {
@@ -382,6 +527,29 @@ pub fn step(kind: OpKind, len: u32) -> io::Result<StepResult> {
         Dead,
         Crash,
         R(StepResult),
+    }
+    // Two processes: the other one may run before this operation takes effect.
+    let sw = with(|m| {
+        if m.crashed {
+            return None;
+        }
+        let (me, pct) = match &m.conc {
+            Some(c) if !c.finished[(c.current ^ 1) as usize] => (c.current, c.switch_pct),
+            _ => return None,
+        };
+        if m.chooser.coin(pct, 100) {
+            m.event("switch", me as u64, m.step as u64);
+            m.stat("process_switch");
+            if let Some(c) = m.conc.as_mut() {
+                c.switches += 1;
+            }
+            Some(me)
+        } else {
+            None
+        }
+    });
+    if let Some(me) = sw {
+        conc_yield(me);
     }
     let d = with(|m| {
         if m.crashed {
@@ -469,6 +637,12 @@ pub fn fs_open(path: &Path, how: OpenHow, kind: OpKind) -> io::Result<u64> {
         StepResult::Fault(e) => return Err(errno(e)),
         _ => {}
     }
+    let r = fs_open_inner(path, how);
+    with(|m| m.watch_check());
+    r
+}
+
+fn fs_open_inner(path: &Path, how: OpenHow) -> io::Result<u64> {
     with(|m| {
         let p = norm(path);
         if m.disk.dirs.contains(&p) {
@@ -529,6 +703,9 @@ pub fn fs_write(ino: u64, offset: u64, data: &[u8], append: bool) -> io::Result<
         }
         node.data[off..off + n].copy_from_slice(&data[..n]);
         node.mtime_ns = now;
+        if m.watched_ino() == Some(ino) {
+            m.watch_check();
+        }
         (off + n) as u64
     });
     if crash_after {
@@ -603,6 +780,7 @@ pub fn fs_set_len(ino: u64, len: u64) -> io::Result<()> {
         let node = m.disk.inodes.get_mut(&ino).expect("inode");
         node.data.resize(len as usize, 0);
         node.mtime_ns = now;
+        m.watch_check();
         Ok(())
     })
 }
@@ -639,6 +817,7 @@ pub fn fs_rename(from: &Path, to: &Path, noclobber: bool) -> io::Result<()> {
             }
         }
         m.event("renamed", ino, 0);
+        m.watch_check();
         Ok(())
     })
 }
@@ -655,6 +834,7 @@ pub fn fs_unlink(path: &Path) -> io::Result<()> {
                 if let Some(n) = m.disk.inodes.get_mut(&ino) {
                     n.nlink = n.nlink.saturating_sub(1);
                 }
+                m.watch_check();
                 Ok(())
             }
             None => Err(not_found()),
@@ -694,6 +874,81 @@ pub fn fs_copy(from: &Path, to: &Path) -> io::Result<u64> {
         }
     }
     Ok(data.len() as u64)
+}
+
+// ----- advisory locks (flock) -------------------------------------------------------
+
+/// A fresh open-file-description id (what a flock belongs to).
+pub fn new_desc_id() -> u64 {
+    with(|m| {
+        m.disk.next_desc += 1;
+        m.disk.next_desc
+    })
+}
+
+fn flock_try(m: &mut Machine, ino: u64, desc: u64, exclusive: bool) -> bool {
+    let holders = m.disk.flocks.entry(ino).or_default();
+    let others_excl = holders.iter().any(|(d, e)| *d != desc && *e);
+    let others_any = holders.iter().any(|(d, _)| *d != desc);
+    let ok = if exclusive { !others_any } else { !others_excl };
+    if ok {
+        holders.retain(|(d, _)| *d != desc);
+        holders.push((desc, exclusive));
+    }
+    ok
+}
+
+/// flock(2) on an open file description. Blocking: while another description
+/// holds a conflicting lock the other process runs; if nobody is left who could
+/// release it, the process hangs (reported like a transfer that never ends).
+/// Non-blocking: Ok(false) when the lock is held elsewhere.
+pub fn fs_flock(ino: u64, desc: u64, exclusive: bool, blocking: bool) -> io::Result<bool> {
+    match step(OpKind::Flock, 0)? {
+        StepResult::Fault(e) => return Err(errno(e)),
+        _ => {}
+    }
+    let mut waits = 0u32;
+    loop {
+        if with(|m| flock_try(m, ino, desc, exclusive)) {
+            with(|m| m.event("flock", ino, desc));
+            return Ok(true);
+        }
+        if !blocking {
+            return Ok(false);
+        }
+        with(|m| m.stat("flock_waited"));
+        let other_alive = with(|m| match &m.conc {
+            Some(c) if !c.finished[(c.current ^ 1) as usize] => Some(c.current),
+            _ => None,
+        });
+        waits += 1;
+        match other_alive {
+            Some(me) if waits < 100_000 => conc_yield(me),
+            _ => {
+                // Nobody can release it any more.
+                with(|m| {
+                    m.hung = true;
+                    m.stat("flock_wait_forever");
+                    m.event("flock_hang", ino, desc);
+                });
+                return Err(crash_now());
+            }
+        }
+    }
+}
+
+/// Release what `desc` holds: explicit unlock, last close, or process death.
+/// Works in a dead process too (the kernel releases the locks of a killed process).
+pub fn flock_release(desc: u64) {
+    if !installed() {
+        return;
+    }
+    with(|m| {
+        for holders in m.disk.flocks.values_mut() {
+            holders.retain(|(d, _)| *d != desc);
+        }
+        m.disk.flocks.retain(|_, h| !h.is_empty());
+    });
 }
 
 pub fn temp_name(prefix: &str, suffix: &str, rand_len: usize) -> String {
